@@ -152,9 +152,16 @@ contract('C05/NelderMead._SetEvaluationLimits', ['C05', 'C08'], SOF + 'NelderMea
     lambda h: _limits_variant(h, SOF + 'NelderMeadSimplexSolver', 200, 200))
 
 
-@contract('C05/SetEvaluationLimits', ['C05'], A + 'AbstractSolver.SetEvaluationLimits')
+@contract('C05/SetEvaluationLimits', ['C05', 'C04', 'C07'], A + 'AbstractSolver.SetEvaluationLimits')
 def set_limits(h):
     s, stepmon, fc, epoch = _mk(h)
+    # the evaluation monitor may hold any number of records (it may have been installed with data in it, or not at all):
+    # "evaluations" is the solver's own call counter, whatever the monitor holds -- so the order of SetEvaluationMonitor
+    # and SetEvaluationLimits(new=True) cannot matter
+    em_x, em_y = h.list_real('evalmon_x'), h.list_real('evalmon_y', inf=True)
+    h.assume('len(ex) == len(ey)', ex=em_x, ey=em_y)
+    h.set_field(s, '_evalmon', h.obj(MON, _x=em_x, _y=em_y, _id=h.clist([]), _info=h.clist([]), k=None, _npts=None, label='ChiSquare'))
+    h.check('evaluations-is-the-solvers-own-call-counter', 's.evaluations == evals', s=s, evals=fc)
     new = h.choice('new', [False, True])
     gk = h.choice('generations_kind', ['int', 'None'])
     ek = h.choice('evaluations_kind', ['int', 'None'])
